@@ -119,15 +119,14 @@ func (v *objectValidator) feedObjectValueBegin() ([]validator, bool) {
 		return NodeValidatorList(childNode, v.rootSchema, v), false
 	}
 
-	// child node not found on schema object
-	if c := v.node_.Constraint(constraint.RequiredKeysConstraintType); c != nil {
-		key, ok := v.validateTypeRules(v.lastFoundKeyLex.Value())
+	// child node not found on schema object: try the key shortcuts (`@key: value`).
+	// A key shortcut admits any number of document keys, so the candidates are
+	// the shortcuts declared on the node, not only the still-required ones.
+	if key, ok := v.validateTypeRules(objectNode, v.lastFoundKeyLex.Value()); ok {
+		child, ok := objectNode.ChildByRawKey([]byte(key))
 		if ok {
-			child, ok := objectNode.ChildByRawKey([]byte(key))
-			if ok {
-				delete(v.requiredKeys, key)
-				return NodeValidatorList(child, v.rootSchema, v), false
-			}
+			delete(v.requiredKeys, key)
+			return NodeValidatorList(child, v.rootSchema, v), false
 		}
 	}
 	if c := v.node_.Constraint(constraint.AdditionalPropertiesConstraintType); c != nil {
@@ -150,20 +149,13 @@ func (v objectValidator) requiredKeysString() string {
 }
 
 // validate with rules
-func (v objectValidator) validateTypeRules(value jbytes.Bytes) (string, bool) {
-	// Try the candidate key shortcuts in schema order, not in Go's randomised
-	// map order: when several shortcuts match, the first one declared wins.
-	keys := make([]string, 0, len(v.requiredKeys))
-	for key := range v.requiredKeys {
-		keys = append(keys, key)
-	}
-	sort.Slice(keys, func(i, j int) bool {
-		if v.requiredKeys[keys[i]] != v.requiredKeys[keys[j]] {
-			return v.requiredKeys[keys[i]] < v.requiredKeys[keys[j]]
+func (v objectValidator) validateTypeRules(objectNode *schema.ObjectNode, value jbytes.Bytes) (string, bool) {
+	// Try the key shortcuts in the order they are declared.
+	for _, k := range objectNode.Keys().Data {
+		if !k.IsShortcut {
+			continue
 		}
-		return keys[i] < keys[j]
-	})
-	for _, key := range keys {
+		key := k.Key
 		typ, ok := v.rootSchema.TypesList()[key]
 		if !ok {
 			continue
